@@ -1,19 +1,14 @@
-use dashu_float::{round::mode, Context, FBig, Repr};
+use dashu_float::{round::mode, FBig};
 use dashu_int::IBig;
-fn show<R: dashu_float::round::Round>(name: &str) {
-    for (s, e) in [(-5i64, -20isize), (5, -20), (-5, -3), (5, -3)] {
-        let ctx = Context::<R>::new(6);
-        let x = Repr::<10>::new(IBig::from(s), e);
-        let r = ctx.exp(&x);
-        let r2 = ctx.exp_m1(&x);
-        println!("{:9} exp({}e{}) = {:?}   exp_m1 = {:?}", name, s, e, r.map(|v: FBig<R, 10>| v.to_string()), r2.map(|v| v.to_string()));
-    }
-}
+use dashu_base::SquareRoot;
+type F2 = FBig<mode::Zero, 2>;
 fn main() {
-    show::<mode::Zero>("Zero");
-    show::<mode::Away>("Away");
-    show::<mode::Up>("Up");
-    show::<mode::Down>("Down");
-    show::<mode::HalfEven>("HalfEven");
-    show::<mode::HalfAway>("HalfAway");
+    let x = F2::from_parts(IBig::from(0), 3).with_precision(5).value();
+    println!("x prec {}", x.precision());
+    let y = F2::from_parts(IBig::from(5), 3).with_precision(5).value();
+    println!("add {}", (&x + &y));
+    println!("mul {}", (&x * &y));
+    println!("div {}", (&x / &y));
+    println!("sqrt {}", x.sqrt());
+    println!("dec {:?}", x.to_decimal());
 }
